@@ -245,7 +245,11 @@ fn tok_records(text: &str) -> Vec<Value> {
     let stub = std::env::var("C17_STUB").ok();
     // negative control "bom": a tokenizer that drops a leading byte-order mark before lexing
     let text = if stub.as_deref() == Some("bom") { text.strip_prefix('\u{feff}').unwrap_or(text) } else { text };
-    let toks = string_to_tokens(0, text);
+    // a panic of the tokenizer is data: one pseudo token of kind "panic", which no specification token equals
+    let toks = match std::panic::catch_unwind(|| string_to_tokens(0, text)) {
+        Ok(t) => t,
+        Err(_) => return vec![json!({"k":"panic","txt":"","line":0,"lend":0,"cs":0,"ce":0})],
+    };
     let mut out = Vec::new();
     for pt in toks.iter() {
         let (k, txt): (&str, String) = match &pt.token {
@@ -425,6 +429,7 @@ fn main() {
         tool_error("usage: c17 strings|frags|free|one|ustrings|numgram|numctx|uctx|files|long|long-one ...");
     }
     selfcheck();
+    std::panic::set_hook(Box::new(|_| {})); // panics of the tokenizer are recorded, not printed
     match args[1].as_str() {
         "ustrings" => {
             let exhlen: i64 = args[2].parse().unwrap();
